@@ -1,0 +1,5 @@
+//go:build !verif
+
+package deletionstate
+
+func verifOrder(point string, ids []string) {}
